@@ -117,6 +117,8 @@ func judgeFace(w Witness) (vs []violation, st *histStats) {
 		m uint8
 	}
 	asked := map[qk]int{} // query -> number of setters seen when last asked
+	lastRes := map[qk]string{}
+	lastSetter := ""
 	setters := 0
 	for i := range w.Ops {
 		op := &w.Ops[i]
@@ -125,14 +127,17 @@ func judgeFace(w Witness) (vs []violation, st *histStats) {
 		case "setvar":
 			f.setVars(op.Vars)
 			setters++
+			lastSetter = "SetVariations"
 			st.c("op=SetVariations")
 		case "setcoords":
 			f.setCoords(op.Coords)
 			setters++
+			lastSetter = "SetCoords"
 			st.c("op=SetCoords")
 		case "setppem":
 			f.setPpem(op.Ppem)
 			setters++
+			lastSetter = "SetPpem"
 			st.c("op=SetPpem")
 		case "query":
 			st.c("op=query/" + op.Query)
@@ -160,6 +165,11 @@ func judgeFace(w Witness) (vs []violation, st *histStats) {
 				}
 				return
 			}
+			if prev, seen := lastRes[k]; seen && prev != got && (op.Query == "extents" || op.Query == "data") {
+				// measured: the setters do change what the (cached) query returns
+				st.c("cached-query-result-changed/" + op.Query + "/last-setter=" + lastSetter)
+			}
+			lastRes[k] = got
 			if got != want {
 				if len(got) > 300 {
 					got = got[:300] + "…"
